@@ -119,6 +119,7 @@ def build(rnd, rnd2=None):
             except ValueError:
                 pass
         ov = rnd.choice([None, None, 2])
+        lib.peek_map(mm, (id(rnd2) & 0, len(keep), aw, cdw, 54), p=0.2)
         if mux is None:
             mux = csr.Multiplexer(mm, shadow_overlaps=ov)
         m.submodules[f"mux{len(keep)}"] = mux; keep.append(mux)
@@ -188,6 +189,7 @@ def run_impl(case):
     h = build(rnd, lib.rng_for(case["seed"], case["idx"], 111))
     root, gb, cdw, ratio = h.root, h.gb, h.cdw, h.ratio
     mmap = root.bus.memory_map
+    lib.peek_map(mmap, (case["seed"], case["idx"], 53))        # a look at the first entries only, before anything else
     infos = list(mmap.all_resources())
     naddr = 1 << mmap.addr_width
     owner = [None] * naddr
@@ -214,17 +216,24 @@ def run_impl(case):
 
     wst = {id(w): s_ for w, n_, (s_, e_, r_) in mmap.windows()}
     lines = [f"case {gb} {h.aw}"]
-    for sub, ld in sorted(h.subs, key=lambda t: wst[id(t[0].memory_map)]):
-        s_ = wst[id(sub.memory_map)]
-        if ld[0] == "sram":
-            lines.append(f"leaf sram {s_} {rid[id(ld[1]._mem)]} {sub.memory_map.addr_width}")
-        else:
-            lines.append(f"leaf bridge {s_} " + " ".join(csr_tokens(ld[1])))
+    unlisted = []
+    try:
+        for sub, ld in sorted(h.subs, key=lambda t: wst[id(t[0].memory_map)]):
+            s_ = wst[id(sub.memory_map)]
+            if ld[0] == "sram":
+                lines.append(f"leaf sram {s_} {rid[id(ld[1]._mem)]} {sub.memory_map.addr_width}")
+            else:
+                lines.append(f"leaf bridge {s_} " + " ".join(csr_tokens(ld[1])))
+    except KeyError:
+        # a register or memory that a map of the hierarchy lists locally is missing from the root's all_resources()
+        unlisted.append(("C01", "a register or memory listed by a sub-map of the hierarchy (resources()) is missing from "
+                                "root.memory_map.all_resources(): software is not told about a leaf the hardware reaches", 0))
+        lines = lines[:1]
     lines += ["routeall", "end"]
     obs = ["route " + " ".join("-" if o is None else f"{rid[id(o.resource)]}:{a - o.start}" for a, o in enumerate(owner))]
     sim = simutil.simulator(h.top, case)
     sim.add_clock(1e-6)
-    fails = []
+    fails = list(unlisted)
     stats = {"addresses": naddr, "assigned": sum(o is not None for o in owner), "registers": len(regs), "srams": len(h.srams),
              "reg_txns": 0, "unassigned_probes": 0, "sram_probes": 0, "acked_unassigned_in_bridge_window": 0, "depth": 0}
     gmask = (1 << cdw) - 1
